@@ -899,7 +899,10 @@ impl<'a> Searcher<'a> {
         if column_expr.minus {
             if let Some(positive) = column_expr_str.strip_prefix('-') {
                 if let Some(cached) = file_map.get(positive) {
-                    return Self::apply_sign(Variant::from_string(cached), true);
+                    let result = Self::apply_sign(Variant::from_string(cached), true);
+                    // aggregates read their argument from this map
+                    file_map.insert(column_expr_str, result.to_string());
+                    return result;
                 }
             }
         }
@@ -989,8 +992,13 @@ impl<'a> Searcher<'a> {
         let function = &column_expr.function.as_ref().unwrap();
 
         if function.is_aggregate_function() {
-            let _ = self.get_column_expr_value(entry, file_info, file_map, buffer_data, left_expr);
+            let argument = self.get_column_expr_value(entry, file_info, file_map, buffer_data, left_expr);
             let buffer_key = left_expr.to_string();
+            // the aggregate reads its argument from the rows: whatever the argument is (a literal
+            // is not cached by itself), this row has to carry it
+            if entry.is_some() && !file_map.contains_key(&buffer_key) {
+                file_map.insert(buffer_key.clone(), argument.to_string());
+            }
             let aggr_result = function::get_aggregate_value(
                 &column_expr.function,
                 buffer_data.unwrap_or(&self.raw_output_buffer),
